@@ -312,16 +312,37 @@ func init() {
 				out.Violate("C16|lint-missing:"+oc.lint, "RSA lint not registered", oc.lint, nil, nil)
 				continue
 			}
+			// the minimum is one number over the whole period in which the lint applies: a ladder of issue dates from the
+			// lint's own effective date (or 1998 for the retired ones) to today, half a year apart
+			var dates []time.Time
+			if oc.cs {
+				for d := l.EffectiveDate; d.Before(time.Date(2025, 6, 1, 0, 0, 0, 0, time.UTC)); d = d.AddDate(0, 6, 0) {
+					dates = append(dates, d, d.Add(-time.Second).AddDate(0, 3, 0))
+				}
+			} else {
+				dates = append(dates, old)
+				for y := 1998; y <= 2013; y += 3 {
+					dates = append(dates, time.Date(y, 3, 1, 0, 0, 0, 0, time.UTC))
+				}
+			}
+			for di, nb := range dates {
 			for _, b := range []int{oc.min - 2, oc.min - 1, oc.min, oc.min + 1, oc.min + 8} {
-				for _, n := range []*big.Int{new(big.Int).Sub(pow(b), one), pow(b - 1), rnd(b)} {
+				for ni, n := range []*big.Int{new(big.Int).Sub(pow(b), one), pow(b - 1), rnd(b)} {
+					if di > 0 && (ni != 0 || (b != oc.min-1 && b != oc.min && b != 2048 && b != 2049)) && tier() != "thorough" {
+						continue
+					}
 					c2 := *base
 					c2.PublicKey = &rsa.PublicKey{N: n, E: 65537}
 					c2.PublicKeyAlgorithm = zx509.RSA
 					c2.IsCA, c2.SelfSigned = oc.isCA, oc.selfSign
 					if oc.cs {
 						c2.PolicyIdentifiers = append(c2.PolicyIdentifiers, []int{2, 23, 140, 1, 4, 1})
+						c2.NotBefore, c2.NotAfter = nb, nb.AddDate(1, 0, 0)
 					} else {
-						c2.NotBefore, c2.NotAfter = old, oldEnd
+						c2.NotBefore, c2.NotAfter = nb, nb.AddDate(3, 0, 0)
+						if di == 0 {
+							c2.NotAfter = oldEnd
+						}
 					}
 					o := observe(func() *lint.LintResult { return l.Execute(&c2, lint.NewEmptyConfig()) })
 					if o.Kind != "res" || (o.Status != 3 && o.Status != 6) {
@@ -329,8 +350,9 @@ func init() {
 						continue
 					}
 					out.Add("rsa_min", Case{Coq: fmt.Sprintf("(%s, %s, %s)", cqZ(int64(oc.min)), cqZs(n.String()), cqZ(int64(o.Status))),
-						Tag: fmt.Sprintf("%s/%d", oc.lint, o.Status), Desc: map[string]interface{}{"lint": oc.lint, "bits": n.BitLen(), "status": o.Status}})
+						Tag: fmt.Sprintf("%s/%d", oc.lint, o.Status), Desc: map[string]interface{}{"lint": oc.lint, "bits": n.BitLen(), "status": o.Status, "notBefore": nb.Format(time.RFC3339)}})
 				}
+			}
 			}
 		}
 		// black-box view of the prime table: which n in [2,2000] does PrimeNoSmallerThan752 reject?
